@@ -30,7 +30,7 @@ using namespace libcellml;
 #endif
 // every symbolic choice made for a child is folded into that child's code, so that the harness knows - independently of
 // equals() - whether two children were given identical attributes (the sensitivity oracle)
-static long gCode[4];
+static long gCode[6];
 static int gChild = -1;
 static void newChild()
 {
@@ -235,6 +235,58 @@ extern "C" void h_equals()
 #    if NB >= 2
     addUnitTo(b);
 #    endif
+#endif
+#ifdef TRANS
+    // a third entity of the same kind with NB children, for transitivity
+#    if KIND == 1
+    auto c = Component::create("c");
+#        if NB >= 1
+    c->addVariable(mkVar());
+#        endif
+#        if NB >= 2
+    c->addVariable(mkVar());
+#        endif
+#    elif KIND == 2
+    auto c = Component::create("c");
+    auto vc1 = Variable::create("p"); auto vc2 = Variable::create("q");
+    c->addVariable(vc1); c->addVariable(vc2);
+#        if NB >= 1
+    c->addReset(mkReset(vc1, vc2));
+#        endif
+#        if NB >= 2
+    c->addReset(mkReset(vc1, vc2));
+#        endif
+#    elif KIND == 3
+    auto c = Component::create("c");
+#        if NB >= 1
+    c->addComponent(mkComp());
+#        endif
+#        if NB >= 2
+    c->addComponent(mkComp());
+#        endif
+#    elif KIND == 4
+    auto c = Model::create("m");
+#        if NB >= 1
+    c->addUnits(mkUnits());
+#        endif
+#        if NB >= 2
+    c->addUnits(mkUnits());
+#        endif
+#    elif KIND == 5
+    auto c = Units::create("u");
+#        if NB >= 1
+    addUnitTo(c);
+#        endif
+#        if NB >= 2
+    addUnitTo(c);
+#        endif
+#    endif
+    {
+        bool t_ab = a->equals(b);
+        bool t_bc = b->equals(c);
+        bool t_ac = a->equals(c);
+        if (t_ab && t_bc) vcheck(t_ac, "equals is transitive");
+    }
 #endif
 #if KIND == 3 && defined(KNOWN_DUPLICATE_CHILDREN)
     // listed finding: child components are matched with containsComponent(), so a side holding two equal children is
